@@ -389,7 +389,7 @@ add("v2000_rad_lines_do_not_reset", (V2, '''                _parse_atom_value_as
             )'''), fires={"R-SUPERSEDE"})
 add("v2000_iso_stored_as_rad", (V2, '''                _parse_atom_value_assignments(line, atom_attrs),
                 MASS,''', '''                _parse_atom_value_assignments(line, atom_attrs),
-                RAD,'''), fires={"R-PROV"})
+                RAD,'''), fires={"R-SUPERSEDE"}, note="R-PROV sees RAD and ISO values meet under `rad` and cannot tell a join from a wrong assignment; the sample blocks show it")
 add("v3000_no_bond_validation", (V3, "    _validate_bond_indices(bond_attrs, atom_attrs)\n", ""), fires={"R-ORDERING"})
 add("v3000_split_before_splice", (V3, '''    lines = _concat_lines_with_dash(lines)
     split_lines = [line.rstrip().split(" ") for line in lines]''', '''    split_lines = [line.rstrip().split(" ") for line in lines]
